@@ -33,6 +33,8 @@ GNAMES = ["T_BIT", "T_CARRAY", "T_CONST", "T_DIVIDE", "T_INDIR", "T_LINCOM", "T_
           "R_FRAMEOFFSET", "R_ENCODING", "R_ENDIAN", "R_INCLUDE", "R_META", "R_VERSION", "R_PROTECT", "R_REFERENCE",
           "R_UNTIL"]
 
+# keys of the three defects found by this check and repaired in /repo (commits
+# e8e73fb, 903107b, be0b187); their witnesses are replayed as regression cases
 K_PENDING = "tokenise/numeric-escape-pending-at-end-of-string"
 K_SINDIR = "parse/SINDIR-gate-version-2"
 K_NAMES = "validate/hash-or-space-in-field-name-before-version-6"
@@ -150,14 +152,13 @@ def tokeniser_part(chk, exe, drv, problems):
             fix = (fa[1:3] == fb[3:5])
             match_cur &= cur
             match_fix &= fix
-            if not cur and not fix:
+            if not fix:
                 bad_blocks.append((job, int(fa[0])))
     chk.cov["evaluations"] += stats["strings"]
     chk.cov["distinct_nontrivial"] += stats["nontrivial"]
     chk.cov["tokeniser"] = dict(stats, wall_s=round(time.time() - t0, 1),
                                 exhaustive=["alphabet %s length %d" % (bytes.fromhex(a).decode("latin-1").encode("unicode_escape").decode(), L) for a, L in plan],
-                                generated_lines=nrand, impl_matches_model_of_current_code=match_cur,
-                                impl_matches_model_of_repaired_code=match_fix)
+                                generated_lines=nrand, impl_matches_model=match_fix)
     if stats["fixed_vs_spec"]:
         problems.append("extracted tok_impl(fx=true) differs from tok_spec on %d strings, e.g. %s (contradicts theorem tokenise_agrees)" % (stats["fixed_vs_spec"], bad_examples[:3]))
     # blocks where the implementation matches neither model: look at every string
@@ -176,7 +177,7 @@ def tokeniser_part(chk, exe, drv, problems):
         n_rep = 0
         for x, y in zip(il, ml):
             m0, m1, spec = y.split("\t")
-            if x == m0 or x == m1:
+            if x == m1:
                 continue
             n_rep += 1
             if n_rep > 3:
@@ -190,9 +191,9 @@ def tokeniser_part(chk, exe, drv, problems):
                     inhex, ver, x.split(" ", 2)[2], spec), rep, found=True)
             else:
                 chk.violation("model/tokenise", "correspondence broken: on string %s (hex) gd_strtok/_GD_Tokenise give [%s], the model of _GD_Tokenise [%s] (both satisfy the specification [%s])" % (
-                    inhex, x.split(" ", 2)[2], m0.split(" ", 2)[2], spec),
+                    inhex, x.split(" ", 2)[2], m1.split(" ", 2)[2], spec),
                     dict(rep, correspondence="C08 Token.v vs _GD_Tokenise"), found=False)
-    # the known defect: replay its witnesses on the implementation
+    # regression: the witnesses of the repaired defect e8e73fb
     wit = [b"s STRING a\\u41", b"a \\12", b"\\x4", b"x\\u"]
     a = run([exe, "stdin", "full"], ("\n".join(w.hex() for w in wit) + "\n").encode())
     b = run([drv, "stdin", "full"], ("\n".join(w.hex() for w in wit) + "\n").encode())
@@ -212,10 +213,7 @@ def tokeniser_part(chk, exe, drv, problems):
                 {"kind": "tokeniser", "input_hex": x.split()[0], "impl": x, "spec": spec,
                  "how": "gd_strtok(D, %r) / gd_add_spec(D, %r, 0) on any dirfile" % (w.decode("latin-1"), w.decode("latin-1"))}, found=True)
     chk.cov["tokeniser"]["pending_escape_witnesses_failing"] = n_bad
-    if stats["current_vs_spec"] and match_cur and not match_fix and n_bad == 0:
-        problems.append("model of the current code disagrees with tok_spec on %d strings (%s) but the witnesses did not reproduce" % (
-            stats["current_vs_spec"], pending_examples[:3]))
-    return match_cur, match_fix
+    return match_fix
 
 
 # ------------------------------------------------------------------ gates
@@ -369,7 +367,7 @@ def gates_part(chk, spec_exe, drv, problems):
             if name in seen_bad:
                 continue
             seen_bad.add(name)
-            key = K_SINDIR if name == "T_SINDIR" and ok_code else "gate/%s/v%d/%s" % (name, v, mode)
+            key = K_SINDIR if name == "T_SINDIR" else "gate/%s/v%d/%s" % (name, v, mode)
             chk.violation(key, "Standards Version %d, %s: the line %r is %s by the library (callbacks %s); the Standards (HISTORY: %s from Version %d) demand %s" % (
                 v, "pedantic" if ped else "permissive", text.splitlines()[3], "accepted" if o["C"] == 0 else "rejected", o["cb"],
                 name, spec[name], ("suberror %d" % e_spec["sub"]) if e_spec["sub"] else "acceptance " + str({k: e_spec[k] for k in e_spec if k != "sub"})),
@@ -430,12 +428,11 @@ def names_part(chk, vf_exe, drv, problems):
         problems.append("names harness/driver failed rc=%d/%d lines=%d/%d/%d %s %s" % (rc1, rc2, len(names), len(il), len(ml), e1[-200:], e2[-200:]))
         return
     n_spec_rej = 0
-    match_cur = match_fix = True
+    match_fix = True
     reported = set()
     for nm, a, b in zip(names, il, ml):
         impl = a.split(" ", 1)[1]
         m0, m1, spec = b.split(" ", 1)[1].split("\t")
-        match_cur &= (impl == m0)
         match_fix &= (impl == m1)
         got = impl[11:22]           # type NAME, nsl 0, strict, Version 0..10
         n_spec_rej += spec.count("1")
@@ -450,10 +447,10 @@ def names_part(chk, vf_exe, drv, problems):
                 nm, v, got[v], "invalid" if spec[v] == "1" else "valid", v),
                 {"kind": "field-name", "name_hex": nm.hex(), "standards_version": v, "impl_by_version": got, "spec_by_version": spec,
                  "how": "printf '%s\\n' | <harness/C08/vf> names  (digits 12..22); public API: <harness/C08/vf> api" % nm.hex()}, found=True)
-        elif impl != m0 and impl != m1 and "model/names" not in reported:
+        elif impl != m1 and "model/names" not in reported:
             reported.add("model/names")
-            chk.violation("model/names", "correspondence broken: _GD_ValidateField on %r gives %s, the model %s" % (nm, impl, m0),
-                          {"kind": "model-vs-impl", "correspondence": "C08 Names.v vs _GD_ValidateField", "name_hex": nm.hex(), "impl": impl, "model": m0}, found=False)
+            chk.violation("model/names", "correspondence broken: _GD_ValidateField on %r gives %s, the model %s" % (nm, impl, m1),
+                          {"kind": "model-vs-impl", "correspondence": "C08 Names.v vs _GD_ValidateField", "name_hex": nm.hex(), "impl": impl, "model": m1}, found=False)
     # the public-API witness of the known defect
     rc, out, err = run([vf_exe, "api"])
     f = out.split()
@@ -464,7 +461,7 @@ def names_part(chk, vf_exe, drv, problems):
     chk.cov["evaluations"] += len(names) * 176
     chk.cov["distinct_nontrivial"] += n_spec_rej
     chk.cov["names"] = {"names": len(names), "calls": len(names) * 176, "rejected_name_version_pairs": n_spec_rej,
-                        "impl_matches_model_of_current_code": match_cur, "impl_matches_model_of_repaired_code": match_fix,
+                        "impl_matches_model": match_fix,
                         "api_witness": out.strip()}
     chk.sample({"name": "a#b", "impl_by_version(NAME,strict)": il[names.index(b"a#b")].split(" ", 1)[1][11:22] if b"a#b" in names else None})
 
